@@ -3608,6 +3608,10 @@ class _CacheWrapper:
     def __init__(self, immutable_warranty: str = 'pickle'):
         self._serialize, self._deserialize = _get_serialize_and_deserialize(
             immutable_warranty)
+        if immutable_warranty == 'copy':
+            # On a cache miss the caller gets the very object that is stored
+            # here. Keep a private copy, so that it cannot be mutated.
+            self._serialize = deepcopy
         self.cache = {}
 
     def __getitem__(self, item):
